@@ -478,7 +478,7 @@ func gen(c *harness.C) []harness.Case {
 				}
 			}
 		}
-		plans = append(plans, plan{cfg{mode: "loud", n: 6, t: 4}, 0})
+		plans = append(plans, plan{cfg{mode: "loud", n: 6, t: 4}, 0}, plan{cfg{mode: "silent", n: 6, t: 5}, 0}, plan{cfg{mode: "loud", n: 6, t: 6}, 0}, plan{cfg{mode: "loud", n: 7, t: 4}, 0})
 	} else {
 		for _, m := range []string{"loud", "silent"} {
 			plans = append(plans, plan{cfg{mode: m, n: 3, t: 2}, 2})
